@@ -9,7 +9,16 @@ Three streams (DESIGN §5 C11):
        parsed by the library; predicate: equals what an independent reference reader (format
        specification, Fractions) reads from the same rows and what the generator wrote;
  (iii) the real corpus under tests/PaBuLib: same predicate with the reference reader.
-In all three the CSV-split rows are also sent to the Lean model (`pabulib` driver command); its parsed
+ (iv)  sequences of generated files parsed one after the other in ONE process, the later ones reusing the project ids of the
+       first with other costs / categories / targets (then the first again); predicate of (ii) on every file;
+ (v)   edit-then-write histories: an election (built through the API, parsed from a generated file, or parsed from a file the
+       library wrote) is edited through the public API - budget limit, project cost / categories / metadata, project added or
+       removed, vote added / removed / replaced / changed in place, voter metadata, instance metadata including stale derived
+       entries - then written; predicate: the file written describes the election as it is NOW (read with the independent
+       reference reader, and parsed back by the library).  (iv) and (v) are predicate-level only.
+In every stream a parsed election is also looked at INSIDE its ballots: the Project objects that are ballot members / keys must
+carry the cost, categories and targets the PROJECTS section of the same file gives them (`members_bad`).
+In the first three the CSV-split rows are also sent to the Lean model (`pabulib` driver command); its parsed
 election must equal the library's, and `writeRows` of it must equal the library's written file modulo
 row order of PROJECTS/VOTES and column order (natsort and set iteration order are not modelled).
 """
@@ -27,7 +36,10 @@ from .. import core
 
 RULE = ("(i) seeded elections (4 vote types x list/multi profile x int/decimal/third costs x extra project/vote/META columns x "
         "limits None/0/below/at/above default x empty and repeated ballots; separate sub-stream with ';' and quotes in names/values), "
-        "(ii) seeded files (column order, blank lines, none cells, decimal commas, upper/lower-case section lines), (iii) real corpus files; "
+        "(ii) seeded files (column order, blank lines, none cells, decimal commas, upper/lower-case section lines), (iii) real corpus files, "
+        "(iv) 2-3 seeded files sharing project ids with different cost/categories/targets parsed in one process, (v) 1-4 API edits "
+        "(budget, cost, categories, project/vote added or removed, ballot replaced or changed in place, project/voter/instance metadata, "
+        "intermediate writes) of a built / parsed / written-and-parsed election, then write; "
         "non-trivial = at least 2 projects and 2 votes and at least one non-mandatory column; distinct by hash of the CSV rows")
 ASSUMPTIONS = [
     "exact-arithmetic mode (FRACTION = gmpy2)",
@@ -36,6 +48,9 @@ ASSUMPTIONS = [
     "ballots are compared as a multiset after a round trip (the writer orders votes by voter id)",
     "legal limits are compared in the parser's normal form (min_length 1, max_length >= #projects, min cost/points 0, "
     "max cost >= budget, max_points == max_sum_points all mean 'no limit')",
+    "edit histories: list profiles only; legal limits are not edited; when the META block of the source file holds limit entries and the "
+    "budget or the number of projects is edited afterwards, the limits are only compared between the two readers (stale entry vs live "
+    "attribute is not decided by the statement); removing a project also removes its entry of the metadata table",
 ]
 TRUSTED = ["Python csv reader/writer (quoting layer)", "natsort (row order of the written file)", "str(mpq)/mpq(str) number codec",
            "the model reads numbers of the forms -?digits, -?digits.digits, -?digits/digits only"]
@@ -159,7 +174,14 @@ def canon_lib(instance, profile):
         md = {k: v for k, v in instance.project_meta.get(p, {}).items() if k not in ("categories", "targets")}
         P[p.name] = (core.toF(p.cost), tuple(sorted(p.categories)), tuple(sorted(p.targets)), md)
     V = []
+    VP = {}
     for b in profile:
+        for p in b:
+            # the Project objects used as ballot members / keys, with the attributes THEY carry
+            seen = VP.setdefault(p.name, [])
+            t = (core.toF(p.cost), tuple(sorted(p.categories)), tuple(sorted(p.targets)))
+            if t not in seen:
+                seen.append(t)
         if isinstance(b, pe.AbstractApprovalBallot):
             cb = ("a", tuple(sorted(p.name for p in b)))
         elif isinstance(b, pe.AbstractCardinalBallot):
@@ -168,7 +190,22 @@ def canon_lib(instance, profile):
             cb = ("o", tuple(p.name for p in b))
         for _ in range(profile.multiplicity(b)):
             V.append((cb, dict(b.meta)))
-    return {"T": instance.meta.get("vote_type"), "B": core.toF(instance.budget_limit), "L": L, "M": dict(instance.meta), "P": P, "V": V}
+    return {"T": instance.meta.get("vote_type"), "B": core.toF(instance.budget_limit), "L": L, "M": dict(instance.meta), "P": P, "V": V, "VP": VP}
+
+
+def members_bad(c):
+    """a parsed election looked at INSIDE its ballots: every Project object that is a member (or key) of a ballot must carry
+    the cost, categories and targets that the PROJECTS section of the same file gives to that project id (c['P'] is compared
+    with the file separately).  None, or a message"""
+    for name, seen in c.get("VP", {}).items():
+        want = c["P"].get(name)
+        if want is None:
+            return f"a ballot contains project {name!r}, which is not a project of the parsed instance"
+        for t in seen:
+            if t != want[:3]:
+                return (f"project {name!r} inside a ballot has cost {t[0]}, categories {list(t[1])!r}, targets {list(t[2])!r}; the PROJECTS section "
+                        f"of the same file says cost {want[0]}, categories {list(want[1])!r}, targets {list(want[2])!r}")
+    return None
 
 
 def err_class(exc) -> str:
@@ -624,7 +661,7 @@ def _bkey(b):
     return ("c", tuple(sorted(zip(b["items"], b["points"]))))
 
 
-def check_round_trip(gt, parsed):
+def check_round_trip(gt, parsed, limits=True):
     """None or (reason, message): does the parsed election equal the ground truth?"""
     exp = expected_after_round_trip(gt)
     if parsed["T"] != exp["T"]:
@@ -644,7 +681,7 @@ def check_round_trip(gt, parsed):
             return ("project_meta_lost", f"metadata of project {n!r}: {rest!r} vs {md!r}")
         if pmd.get("project_id") != n or ref_num(pmd.get("cost", "0")) != cost:
             return ("project_meta_lost", f"derived columns of project {n!r}: {pmd!r}")
-    if parsed["L"] != exp["L"]:
+    if limits and parsed["L"] != exp["L"]:
         for i in range(8):
             if parsed["L"][i] != exp["L"][i]:
                 reason = "zero_limit_dropped" if gt["limits"][i] == 0 else LIMIT_KEYS[i] + "_lost"
@@ -718,6 +755,8 @@ def round_trip_case(ctx, gt, lines, pend):
         return
     c1, (inst1, prof1) = r1[1], r1[2]
     bad = check_round_trip(gt, c1)
+    if bad is None and members_bad(c1):
+        bad = ("ballot_members", members_bad(c1))
     if bad:
         reason = bad[0]
         if gt.get("special") and reason in ("project_names", "project_meta_lost", "project_categories", "ballot_content", "vote_meta_lost", "instance_meta_lost", "project_cost", "num_votes"):
@@ -733,7 +772,7 @@ def round_trip_case(ctx, gt, lines, pend):
     if r2[0] == "err":
         viol("second_round_trip", f"second parse raised {r2[1]}: {r2[2]}", impl=text2[:2000])
         return
-    d = diff_canon(c1, r2[1], votes="list")
+    d = diff_canon(c1, r2[1], votes="list") or members_bad(r2[1])
     if d:
         viol("not_idempotent", "second round trip differs from the first: " + d, impl=text2[:2000])
         return
@@ -806,9 +845,10 @@ def fmt_num(rng, x, allow_comma=False):
     return f"{x.numerator}/{x.denominator}"
 
 
-def gen_file(rng):
+def gen_file(rng, gt=None):
     """(rows-as-written, text, gt): a Pabulib file written by the generator itself"""
-    gt = gen_ground_truth(rng, special=rng.random() < 0.15)
+    if gt is None:
+        gt = gen_ground_truth(rng, special=rng.random() < 0.15)
     gt["multi"] = False
     vt = gt["vtype"]
     pad = (lambda s: rng.choice(["", " ", "  "]) + s + rng.choice(["", " ", "\t"])) if rng.random() < 0.3 else (lambda s: s)
@@ -954,6 +994,8 @@ def file_case(ctx, rows_written, text, gt, lines, pend):
                 bad = ("reference_reader", "differs from the reference reader: " + d)
         except Exception as e:  # noqa: BLE001
             bad = ("reference_reader", f"reference reader raised {e!r}")
+    if bad is None and members_bad(c):
+        bad = ("ballot_members", members_bad(c))
     if bad:
         viol(bad[0], "the parsed election is not the one written in the file: " + bad[1], impl=canon_json(c))
         return
@@ -1086,6 +1128,9 @@ def corpus_case(ctx, path, lines, pend):
         ctx.violations.append({"what": f"corpus file {rel}: parsed election differs from what the file says: {d}", "case": {"file": rel}, "cfg": {"stream": "corpus"},
                                "sig": {**sig, "reason": "max_sum_cost_lost" if d.startswith("L:") else "corpus_mismatch"}})
         return
+    if members_bad(c):
+        ctx.violations.append({"what": f"corpus file {rel}: {members_bad(c)}", "case": {"file": rel}, "cfg": {"stream": "corpus"}, "sig": {**sig, "reason": "ballot_members"}})
+        return
     # round trip of the parsed corpus election (predicate: equal, idempotent)
     lib_written = None
     try:
@@ -1123,6 +1168,434 @@ def _stable_part(c, orig):
 
 
 # ----------------------------------------------------------------------------------------------
+# stream (iv): several elections parsed one after the other in ONE process
+
+
+def judge_file(text, gt):
+    """the file predicate of stream (ii) as a function: None or (reason, message)"""
+    r = lib_parse(text)
+    if r[0] == "err":
+        return ("parser_raises", f"a well-formed file is rejected: {type(r[2]).__name__ if r[2] else 'profile None'}: {r[2]}")
+    c = r[1]
+    bad = check_file_describes(gt, c)
+    if bad is None:
+        try:
+            d = diff_canon(c, ref_parse(csv_rows(text)))
+            if d:
+                bad = ("reference_reader", "differs from the reference reader: " + d)
+        except Exception as e:  # noqa: BLE001
+            bad = ("reference_reader", f"reference reader raised {e!r}")
+    if bad is None and members_bad(c):
+        bad = ("ballot_members", members_bad(c))
+    return bad
+
+
+def gen_revised_edition(rng, gt_a):
+    """another election that REUSES project ids of `gt_a` with other costs / categories / targets / metadata (next year's edition,
+    a re-costed draft, another district numbering its projects 1..m as well)"""
+    gt = gen_ground_truth(rng, special=False, vtype=gt_a["vtype"] if rng.random() < 0.5 else None)
+    old = [p["name"] for p in gt["projects"]]
+    pool = [p["name"] for p in gt_a["projects"]]
+    rng.shuffle(pool)
+    pool += [n for n in old if n not in pool]
+    ren = dict(zip(old, pool))
+    for p in gt["projects"]:
+        p["name"] = ren[p["name"]]
+    for v in gt["votes"]:
+        v["ballot"] = dict(v["ballot"], items=[ren[n] for n in v["ballot"]["items"]])
+        if v["ballot"]["kind"] == "a":
+            v["ballot"]["items"] = sorted(v["ballot"]["items"])
+    return gt
+
+
+def run_sequence(texts, gts):
+    """parse the files in the given order in this process, then the first one once more; (index, reason, message) of the first
+    file whose parsed election is not the one written in it, or None"""
+    order = list(range(len(texts))) + ([0] if len(texts) > 1 else [])
+    for k in order:
+        bad = judge_file(texts[k], gts[k])
+        if bad:
+            return (k, bad[0], bad[1])
+    return None
+
+
+def sequence_case(ctx, rng):
+    ctx.evaluations += 1
+    _, text_a, gt_a = gen_file(rng, gt=gen_ground_truth(rng, special=False))
+    texts, gts = [text_a], [gt_a]
+    for _ in range(rng.choice([1, 1, 2])):
+        _, t, g = gen_file(rng, gt=gen_revised_edition(rng, gt_a))
+        texts.append(t)
+        gts.append(g)
+    shared = [n for n in (p["name"] for p in gts[1]["projects"]) if n in {p["name"] for p in gt_a["projects"]}]
+    ctx.count("iv.files_in_sequence", str(len(texts)))
+    ctx.count("iv.shared_project_ids", str(min(len(shared), 5)) + ("+" if len(shared) > 5 else ""))
+    cost_a = {p["name"]: (p["cost"], p["cats"], p["targets"]) for p in gt_a["projects"]}
+    voted = {n for v in gts[1]["votes"] for n in v["ballot"]["items"]}
+    if any(n in voted and cost_a[n] != (p["cost"], p["cats"], p["targets"]) for p in gts[1]["projects"] for n in [p["name"]] if n in cost_a):
+        ctx.nontrivial.add("seq" + core_hash(texts))
+        ctx.count("iv.reused_id_with_other_attributes_in_a_ballot", "yes")
+    bad = run_sequence(texts, gts)
+    if bad:
+        k, reason, msg = bad
+        ctx.violations.append({"what": f"file #{k} of {len(texts)} files parsed one after the other in one process (same project ids, other attributes): "
+                                       f"the parsed election is not the one written in the file: {msg}",
+                               "case": {"texts": texts, "gts": [gt_json(g) for g in gts]}, "cfg": {"stream": "sequence", "failed_at": k},
+                               "sig": {"call": "parse_sequence", "reason": reason, "vtype": gts[k]["vtype"]}})
+
+
+# ----------------------------------------------------------------------------------------------
+# stream (v): edit-then-write histories.  An election (built through the API, parsed from a generated file, or parsed from a file
+# the library wrote) is EDITED through the public API, then written; predicate: the file written describes the election as it is
+# NOW - read with the independent reference reader and, second, parsed back by the library.  The ground truth is kept as plain
+# data next to the objects and receives the same edits.  Predicate level only (the Lean model has no notion of object histories).
+
+HIST_META_KEYS = [k for k in META_KEYS] + ["num_votes", "num_projects", "budget", "vote_type"]
+
+
+def state_of_gt(gt):
+    st = gt_from_json(gt_json(gt))
+    st["multi"] = False
+    st["limit_keys_in_meta"] = False
+    return st
+
+
+def state_of_canon(c):
+    """ground truth (plain data) of an election read by the reference reader"""
+    projects = [{"name": n, "cost": v[0], "cats": list(v[1]), "targets": list(v[2]), "md": {k: x for k, x in v[3].items() if k not in ("project_id", "cost")}}
+                for n, v in c["P"].items()]
+    votes = []
+    for b, md in c["V"]:
+        if b[0] == "c":
+            bal = {"kind": "c", "items": [n for n, _ in b[1]], "points": [x for _, x in b[1]]}
+        else:
+            bal = {"kind": b[0], "items": list(b[1])}
+        votes.append({"ballot": bal, "md": dict(md)})
+    return {"vtype": c["T"], "budget": c["B"], "md": {k: v for k, v in c["M"].items() if k not in DERIVED_META and k not in LIMIT_KEYS},
+            "projects": projects, "votes": votes, "limits": list(c["L"]), "multi": False, "special": False,
+            "limit_keys_in_meta": any(k in c["M"] for k in LIMIT_KEYS)}
+
+
+def open_start(start):
+    """-> (instance, profile, state) or None when the start election itself is not usable (reported by the other streams)"""
+    if start["source"] == "built":
+        gt = gt_from_json(start["gt"])
+        gt["multi"] = False
+        inst, prof = build_objects(gt)
+        return inst, prof, state_of_gt(gt)
+    r = lib_parse(start["text"])
+    if r[0] == "err":
+        return None
+    ref = ref_parse(csv_rows(start["text"]))
+    if diff_canon(r[1], ref) or members_bad(r[1]):
+        return None
+    return r[2][0], r[2][1], state_of_canon(ref)
+
+
+def _num(x):
+    return str(F(x))
+
+
+def gen_edit(rng, st):
+    """one edit of the election through the public API, as plain data; None if the drawn kind does not apply"""
+    vals = PLAIN_VALUES
+    names = [p["name"] for p in st["projects"]]
+    voted = {n for v in st["votes"] for n in v["ballot"]["items"]}
+    kind = rng.choice(["budget", "budget", "cost", "cost", "add_project", "remove_project", "categories", "project_meta", "add_vote", "remove_vote",
+                       "replace_ballot", "ballot_member", "vote_meta", "meta", "meta", "write"])
+    if kind == "write":
+        return {"op": "write"}
+    if kind == "budget":
+        return {"op": "budget", "value": _num(gen_number(rng, 1, 20000))}
+    if kind == "meta":
+        k = rng.choice(HIST_META_KEYS)
+        if k in ("num_votes", "num_projects"):
+            return {"op": "meta", "key": k, "value": "999"}
+        if k == "budget":
+            return {"op": "meta", "key": k, "value": _num(gen_number(rng, 1, 20000, kinds=("int",)))}
+        if k == "vote_type":
+            return {"op": "meta", "key": k, "value": rng.choice(["approval", "ordinal", "cumulative", "scoring"])}
+        return {"op": "meta", "key": k, "value": None if (k in st["md"] and rng.random() < 0.3) else rng.choice(vals)}
+    if kind == "add_project":
+        free = [n for n in PLAIN_NAMES if n not in names]
+        if not free:
+            return None
+        return {"op": "add_project", "name": rng.choice(free), "cost": _num(gen_number(rng)), "cats": sorted(rng.sample(CATS, rng.choice([0, 1, 2]))),
+                "targets": sorted(rng.sample(TARGETS, rng.choice([0, 0, 1])))}
+    if kind == "add_vote":
+        return {"op": "add_vote", "ballot": _gen_ballot(rng, st, names), "md": {k: rng.choice(vals) for k in rng.sample(VOTE_KEYS, rng.choice([0, 0, 1, 2]))}}
+    if kind in ("cost", "remove_project", "categories", "project_meta"):
+        if not names:
+            return None
+        n = rng.choice(names)
+        if kind == "cost":
+            return {"op": "cost", "name": n, "value": _num(gen_number(rng, 0 if rng.random() < 0.1 else 1))}
+        if kind == "remove_project":
+            return None if n in voted else {"op": "remove_project", "name": n}
+        if kind == "categories":
+            return {"op": "categories", "name": n, "cats": sorted(rng.sample(CATS, rng.choice([0, 1, 2]))), "targets": sorted(rng.sample(TARGETS, rng.choice([0, 1, 2])))}
+        pm = next(p for p in st["projects"] if p["name"] == n)["md"]
+        k = rng.choice(PROJ_KEYS)
+        return {"op": "project_meta", "name": n, "key": k, "value": None if (k in pm and rng.random() < 0.3) else rng.choice(vals)}
+    if not st["votes"]:
+        return None
+    i = rng.randrange(len(st["votes"]))
+    if kind == "remove_vote":
+        return {"op": "remove_vote", "index": i}
+    if kind == "replace_ballot":
+        return {"op": "replace_ballot", "index": i, "ballot": _gen_ballot(rng, st, names)}
+    if kind == "vote_meta":
+        k = rng.choice(VOTE_KEYS)
+        return {"op": "vote_meta", "index": i, "key": k, "value": None if (k in st["votes"][i]["md"] and rng.random() < 0.3) else rng.choice(vals)}
+    # ballot_member: one project enters / leaves the ballot, or gets other points, IN PLACE
+    b = st["votes"][i]["ballot"]
+    if not names:
+        return None
+    n = rng.choice(names)
+    if b["kind"] == "c":
+        if n in b["items"] and rng.random() < 0.4:
+            return {"op": "ballot_del", "index": i, "name": n}
+        return {"op": "ballot_score", "index": i, "name": n, "points": _num(rng.choice([F(0), F(1), F(2), F(4), F(1, 3), F(5, 2)]))}
+    if n in b["items"]:
+        return {"op": "ballot_del", "index": i, "name": n} if b["kind"] == "a" else None
+    return {"op": "ballot_add", "index": i, "name": n}
+
+
+def _gen_ballot(rng, st, names):
+    items = rng.sample(names, rng.randint(0, len(names)))
+    if st["vtype"] == "approval":
+        return {"kind": "a", "items": sorted(items)}
+    if st["vtype"] == "ordinal":
+        return {"kind": "o", "items": items}
+    return {"kind": "c", "items": items, "points": [_num(rng.choice([F(0), F(1), F(2), F(3), F(1, 3), F(5, 2), F(-1)])) for _ in items]}
+
+
+def _set_or_pop(d, k, v):
+    if v is None:
+        d.pop(k, None)
+    else:
+        d[k] = v
+
+
+def apply_state(st, e):
+    op = e["op"]
+    if op == "budget":
+        st["budget"] = F(e["value"])
+    elif op == "meta":
+        _set_or_pop(st["md"], e["key"], e["value"])
+    elif op == "cost":
+        next(p for p in st["projects"] if p["name"] == e["name"])["cost"] = F(e["value"])
+    elif op == "add_project":
+        assert all(p["name"] != e["name"] for p in st["projects"])
+        st["projects"].append({"name": e["name"], "cost": F(e["cost"]), "cats": list(e["cats"]), "targets": list(e["targets"]), "md": {}})
+    elif op == "remove_project":
+        assert not any(e["name"] in v["ballot"]["items"] for v in st["votes"])
+        k = next(i for i, p in enumerate(st["projects"]) if p["name"] == e["name"])
+        st["projects"].pop(k)
+    elif op == "categories":
+        p = next(p for p in st["projects"] if p["name"] == e["name"])
+        p["cats"], p["targets"] = list(e["cats"]), list(e["targets"])
+    elif op == "project_meta":
+        _set_or_pop(next(p for p in st["projects"] if p["name"] == e["name"])["md"], e["key"], e["value"])
+    elif op == "add_vote":
+        b = e["ballot"]
+        names = {p["name"] for p in st["projects"]}
+        assert all(n in names for n in b["items"])
+        st["votes"].append({"ballot": dict(b, **({"points": [F(x) for x in b["points"]]} if "points" in b else {})), "md": dict(e["md"])})
+    elif op == "remove_vote":
+        st["votes"].pop(e["index"])
+    elif op == "replace_ballot":
+        b = e["ballot"]
+        names = {p["name"] for p in st["projects"]}
+        assert all(n in names for n in b["items"])
+        st["votes"][e["index"]]["ballot"] = dict(b, **({"points": [F(x) for x in b["points"]]} if "points" in b else {}))
+    elif op == "vote_meta":
+        _set_or_pop(st["votes"][e["index"]]["md"], e["key"], e["value"])
+    elif op in ("ballot_add", "ballot_del", "ballot_score"):
+        b = dict(st["votes"][e["index"]]["ballot"])
+        assert any(p["name"] == e["name"] for p in st["projects"])
+        items, pts = list(b["items"]), list(b.get("points", []))
+        if op == "ballot_add":
+            assert e["name"] not in items
+            items.append(e["name"])
+        elif op == "ballot_del":
+            k = items.index(e["name"])
+            items.pop(k)
+            if pts:
+                pts.pop(k)
+        elif e["name"] in items:
+            pts[items.index(e["name"])] = F(e["points"])
+        else:
+            items.append(e["name"])
+            pts.append(F(e["points"]))
+        b["items"] = items
+        if b["kind"] == "c":
+            b["points"] = pts
+        st["votes"][e["index"]]["ballot"] = b
+    elif op != "write":
+        raise ValueError(op)
+
+
+def _ballot_object(vtype, b, P):
+    pe = lib_classes()
+    if b["kind"] == "a":
+        return pe.ApprovalBallot([P[n] for n in b["items"]])
+    if b["kind"] == "o":
+        return pe.OrdinalBallot([P[n] for n in b["items"]])
+    cls = pe.CumulativeBallot if vtype == "cumulative" else pe.CardinalBallot
+    return cls({P[n]: to_mpq(F(s)) for n, s in zip(b["items"], b["points"])})
+
+
+def apply_objects(inst, prof, e, vtype):
+    """the same edit on the real objects, through attributes and container methods a user of the library has"""
+    pe = lib_classes()
+    op = e["op"]
+    P = {p.name: p for p in inst}
+    if op == "write":
+        lib().election_as_pabulib_string(inst, prof)
+    elif op == "budget":
+        inst.budget_limit = to_mpq(F(e["value"]))
+    elif op == "meta":
+        _set_or_pop(inst.meta, e["key"], e["value"])
+    elif op == "cost":
+        P[e["name"]].cost = to_mpq(F(e["value"]))
+    elif op == "add_project":
+        inst.add(pe.Project(e["name"], to_mpq(F(e["cost"])), categories=set(e["cats"]), targets=set(e["targets"])))
+    elif op == "remove_project":
+        inst.remove(P[e["name"]])
+        inst.project_meta.pop(P[e["name"]], None)  # (the metadata table is keyed by project NAME: what is left there would belong to a later project of that name)
+    elif op == "categories":
+        P[e["name"]].categories = set(e["cats"])
+        P[e["name"]].targets = set(e["targets"])
+    elif op == "project_meta":
+        _set_or_pop(inst.project_meta.setdefault(P[e["name"]], {}), e["key"], e["value"])
+    elif op == "add_vote":
+        ob = _ballot_object(vtype, e["ballot"], P)
+        ob.meta = dict(e["md"])
+        prof.append(ob)
+    elif op == "remove_vote":
+        prof.pop(e["index"])
+    elif op == "replace_ballot":
+        ob = _ballot_object(vtype, e["ballot"], P)
+        ob.meta = dict(prof[e["index"]].meta)
+        prof[e["index"]] = ob
+    elif op == "vote_meta":
+        _set_or_pop(prof[e["index"]].meta, e["key"], e["value"])
+    elif op == "ballot_add":
+        b = prof[e["index"]]
+        if isinstance(b, pe.AbstractApprovalBallot):
+            b.add(P[e["name"]])
+        else:
+            b.append(P[e["name"]])
+    elif op == "ballot_del":
+        b = prof[e["index"]]
+        if isinstance(b, pe.AbstractApprovalBallot):
+            b.remove(P[e["name"]])
+        else:
+            del b[P[e["name"]]]
+    elif op == "ballot_score":
+        prof[e["index"]][P[e["name"]]] = to_mpq(F(e["points"]))
+    else:
+        raise ValueError(op)
+
+
+STRUCTURAL = ("budget", "add_project", "remove_project")
+
+
+def run_history(start, edits):
+    """-> None (the start is unusable), or (bad, text) with bad = None | (reason, message)"""
+    opened = open_start(start)
+    if opened is None:
+        return None
+    inst, prof, st = opened
+    try:
+        for e in edits:
+            apply_state(st, e)
+    except (AssertionError, IndexError, StopIteration, ValueError):
+        return None  # (a shortened history in which a later edit no longer applies)
+    try:
+        for e in edits:
+            apply_objects(inst, prof, e, st["vtype"])
+        text = lib().election_as_pabulib_string(inst, prof)
+    except Exception as e:  # noqa: BLE001
+        return (("writer_raises", f"{type(e).__name__}: {e} while editing / writing"), None)
+    # stale META limit entries of the source file against a changed budget / number of projects: which one is 'the' limit
+    # of the election is not decided by the statement; the limits are then only compared between the two readers
+    limits = not (st["limit_keys_in_meta"] and any(e["op"] in STRUCTURAL for e in edits))
+    try:
+        ref = ref_parse(csv_rows(text))
+    except Exception as e:  # noqa: BLE001
+        return (("written_file_malformed", f"the reference reader cannot read the file written: {e!r}"), text)
+    bad = check_round_trip(st, ref, limits=limits)
+    if bad:
+        return ((bad[0], "the file written does not describe the election as it is now (reference reader): " + bad[1]), text)
+    r = lib_parse(text)
+    if r[0] == "err":
+        return (("parser_raises", f"the file written cannot be parsed back: {r[1]}: {r[2]}"), text)
+    bad = check_round_trip(st, r[1], limits=limits)
+    if bad:
+        return ((bad[0], "write + parse does not give the election as it is now: " + bad[1]), text)
+    d = diff_canon(r[1], ref) or members_bad(r[1])
+    if d:
+        return (("reference_reader", "parsing the file written differs from the reference reader: " + d), text)
+    return (None, text)
+
+
+def history_case(ctx, rng):
+    src = rng.choice(["built", "file", "written"])
+    if src == "built":
+        gt = gen_ground_truth(rng, special=False)
+        gt["multi"] = False
+        start = {"source": "built", "gt": gt_json(gt)}
+    elif src == "file":
+        start = {"source": "file", "text": gen_file(rng, gt=gen_ground_truth(rng, special=False))[1]}
+    else:
+        gt = gen_ground_truth(rng, special=False)
+        try:
+            start = {"source": "file", "text": lib().election_as_pabulib_string(*build_objects(gt))}
+        except Exception:  # noqa: BLE001  (stream (i) reports writer exceptions)
+            ctx.count("v.start_unusable", "writer")
+            return
+    opened = open_start(start)
+    if opened is None:
+        ctx.count("v.start_unusable", src)
+        return
+    st = opened[2]
+    edits = []
+    for _ in range(rng.choice([1, 1, 2, 2, 3, 4])):
+        e = gen_edit(rng, st)
+        if e is None:
+            continue
+        apply_state(st, e)
+        edits.append(e)
+    if not any(e["op"] != "write" for e in edits):
+        return
+    ctx.evaluations += 1
+    ctx.count("v.start", src)
+    for e in edits:
+        ctx.count("v.edit", e["op"] if e["op"] != "meta" or e["key"] not in DERIVED_META else "meta(stale derived entry)")
+    res = run_history(start, edits)
+    if res is None:
+        ctx.count("v.start_unusable", src)
+        return
+    bad, text = res
+    if len(st["projects"]) >= 2 and len(st["votes"]) >= 2:
+        ctx.nontrivial.add("hist" + core_hash([json.dumps(start, sort_keys=True), json.dumps(edits, sort_keys=True)]))
+    if bad:
+        # shortest history: drop the edits that are not needed for the same failure
+        k = 0
+        while k < len(edits) and len(edits) > 1:
+            shorter = edits[:k] + edits[k + 1:]
+            r2 = run_history(start, shorter)
+            if r2 is not None and r2[0] is not None and r2[0][0] == bad[0]:
+                edits, (bad, text) = shorter, r2
+            else:
+                k += 1
+        ctx.violations.append({"what": "edit-then-write history: " + bad[1], "case": {"start": start, "edits": edits}, "cfg": {"stream": "history"},
+                               "impl": (text or "")[:2000], "sig": {"call": "edit_then_write", "reason": bad[0], "vtype": st["vtype"], "edits": sorted({e["op"] for e in edits})}})
+
+
+# ----------------------------------------------------------------------------------------------
 # model comparison
 
 
@@ -1155,6 +1628,12 @@ def run(ctx):
     ctx.rule = RULE
     rng = ctx.rng
     lines, pend = [], []
+    # first, while nothing else has been parsed in this process: sequences of files sharing project ids (a stored failure is
+    # then reproduced by parsing exactly the stored files in a fresh process)
+    for _ in range(ctx.scale(300, 2000)):
+        sequence_case(ctx, rng)
+    for _ in range(ctx.scale(1500, 10000)):
+        history_case(ctx, rng)
     n_i = ctx.scale(1200, 8000)
     for k in range(n_i):
         gt = gen_ground_truth(rng, special=False, vtype=["approval", "cumulative", "scoring", "ordinal"][k % 4] if k < 40 else None)
@@ -1184,6 +1663,9 @@ def search(ctx, disagreements):
         round_trip_case(ctx, gen_ground_truth(rng, special=rng.random() < 0.2), lines, pend)
         rows, text, gt = gen_file(rng)
         file_case(ctx, rows, text, gt, lines, pend)
+        sequence_case(ctx, rng)
+        history_case(ctx, rng)
+        history_case(ctx, rng)
 
 
 def replay(payload):
@@ -1204,6 +1686,18 @@ def replay(payload):
         file_case(ctx, csv_rows(case["text"]), case["text"], gt, lines, pend)
     elif stream == "corpus":
         corpus_case(ctx, os.path.join(core.REPO, case["file"]), lines, pend)
+    elif stream == "sequence":
+        bad = run_sequence(case["texts"], [gt_from_json(g) for g in case["gts"]])
+        if bad:
+            return False, f"still failing: file #{bad[0]} of the sequence: {bad[2]}"
+        return True, "every file of the sequence parses to the election written in it now"
+    elif stream == "history":
+        res = run_history(case["start"], case["edits"])
+        if res is None:
+            return True, "the start election of the history is not usable (see the other streams)"
+        if res[0]:
+            return False, "still failing: " + res[0][1]
+        return True, "the file written after the edits describes the election as it is now"
     else:
         return True, "nothing to replay (no concrete failing input in this file): " + str(payload.get("what"))
     if ctx.violations:
